@@ -289,10 +289,18 @@ def judgeStep (st : RefState) (op : Op) (ob : Obs) : String × RefState :=
     let st' : RefState := { kind := k, bufSize := b, cur := ⟨[], rem⟩, oth := ⟨[], rem⟩ }
     if ob.items != [] then ("violates list-equals-reference: a new object is not empty", st') else ("ok", st')
   | .put isSet typed id v =>
+    -- "longer segments being refused": a Uri-Path segment over 255 bytes handed to a setter of the option list —
+    -- `Options.SetBytes/AddBytes/SetString/AddString` (raw objects) or the pooled message's
+    -- `SetOptionString/AddOptionString` — must be refused and leave the list as it is.  (Only the pooled message's
+    -- *bytes* setters `SetOptionBytes/AddOptionBytes`, which bypass the `Options` methods, may store it: either outcome
+    -- is accepted there.)
     let tooLong := id == uriPathId && v.length > maxSegment
+    let guarded := tooLong && (st.kind == .raw || typed)
     let refusals := if tooLong then ["invalid", "xpanic-invalid"] else []
-    let _ := typed
-    judgeEdit st ⟨refusals, false, if isSet then set (id, v) l else ins (id, v) l, v.length⟩ ob
+    if guarded && ob.err == "ok" then
+      (s!"violates segment-too-long-refused: a Uri-Path segment of {v.length} bytes (more than {maxSegment}) was stored instead of being refused", st)
+    else
+      judgeEdit st ⟨refusals, guarded, if isSet then set (id, v) l else ins (id, v) l, v.length⟩ ob
   | .putU32 isSet id v =>
     let b := uintBytes v
     judgeEdit st ⟨[], false, if isSet then set (id, b) l else ins (id, b) l, b.length⟩ ob
